@@ -80,7 +80,7 @@ def startsRegular (s : List UInt8) : Bool :=
 
 /-- values whose spelling ends in a regular character -/
 def needsBnd {R : Type} : Prim R → Bool
-  | .null | .int _ | .real _ | .bool _ | .ref _ _ | .name _ => true
+  | .null | .int _ | .real _ | .bool _ | .ref _ _ | .name _ | .stream _ _ => true
   | _ => false
 
 def zeros : Nat → List UInt8
